@@ -103,9 +103,13 @@ def mk(case, dtype=float):
     if route == "ctor" and all(o in (1, -1) for o in objs):
         # the constructor instead of mkdm: a labelled DataFrame, objectives and weights as plain pandas Series
         import pandas as pd
-        df = pd.DataFrame(mtx, index=alts, columns=crits)
-        if case.get("dtypes"):
-            df = df.astype({c: t for c, t in zip(crits, case["dtypes"])})
+        if case.get("dtypes") and all(t == "int64" for t in case["dtypes"]):
+            # exact integers (they may lie beyond 2**53, where a detour through float would change them)
+            df = pd.DataFrame(np.array([[int(x) for x in r] for r in case["matrix"]], dtype=np.int64), index=alts, columns=crits)
+        else:
+            df = pd.DataFrame(mtx, index=alts, columns=crits)
+            if case.get("dtypes"):
+                df = df.astype({c: t for c, t in zip(crits, case["dtypes"])})
         if zlib.crc32(repr((alts, wts)).encode()) & 1:
             # the caller's frame has axis names of its own
             df.index.name, df.columns.name = "id", "indicator"
